@@ -29,9 +29,14 @@ EDGE = [chr(0), chr(0x7f), chr(0x80), chr(0xD7FF), chr(0xD800), chr(0xDFFF), chr
 PAIR_ALPHABET = list('\\]^[-/$.()|?*+{}a~ \n') + ['\x00', '\U0010ffff', 'é', '٣']
 
 
+def dsl_special():
+    from pbt import dsl
+    return dsl.SPECIAL_UNI
+
+
 def char_st():
     return st.one_of(st.sampled_from(META), st.sampled_from(META), st.sampled_from(list('abzAZ09_ ,\n\t\r\x0b\x0c')),
-                     st.sampled_from(EDGE), st.characters(), st.sampled_from(list('äß€٣א')))
+                     st.sampled_from(EDGE), st.characters(), st.sampled_from(list('äß€٣א')), st.sampled_from(dsl_special()))
 
 
 def arg_st(invalid):
@@ -58,7 +63,8 @@ def ctor_strategy(invalid=True):
     import string
     pools = [string.punctuation, string.printable, string.ascii_letters + string.digits + '-._', string.ascii_letters + string.digits + '+/=',
              ''.join(chr(c) for c in range(0x20, 0x7f)), ''.join(chr(c) for c in range(0xA0, 0x180)), string.hexdigits + ':.-[]',
-             ''.join(chr(c) for c in range(0x3b1, 0x3ca)) + string.digits]
+             ''.join(chr(c) for c in range(0x3b1, 0x3ca)) + string.digits, string.digits + '\xb2\xb3\xb9\u2070\u2460\u0663ab',
+             string.ascii_lowercase + '\u017f\u0131\u212a\xb5', string.whitespace + '\x85\xa0\u2028\u1680\x1c', string.digits + string.ascii_letters + '_\u2126\xaa']
     big = st.tuples(st.sampled_from(pools), st.integers(0, 2 ** 30), st.integers(8, 100), st.booleans()).map(_big_args)
     return st.one_of(
         big.map(lambda xs: ['from', xs]), big.map(lambda xs: ['butfrom', xs]),
@@ -76,7 +82,7 @@ def _big_args(t):
     import random
     pool, seed, k, shuffled = t
     rng = random.Random(seed)
-    chars = rng.sample(pool, min(k, len(pool)))
+    chars = rng.sample(pool, len(pool) if k % 5 == 0 else min(k, len(pool)))
     if not shuffled:
         chars.sort()
     return [['c', c] for c in chars]
